@@ -12,7 +12,8 @@ RULE = ("sequences of expedited SDO writes to 14xx/16xx/18xx/1Axx sub-indices wi
         "wrong-access objects with 8/16/24/32 bit; counts 0..9) interleaved with NMT start/stop; every verdict and abort code is compared with "
         "the CiA 301 precondition model, every write is read back (refused => unchanged, accepted => stored), and after every activation "
         "(entering OPERATIONAL, re-validation while OPERATIONAL) the live PDO tables are checked (<= 8 bytes, all targets exist, as stored) "
-        "and probed behaviourally (trigger / received frame); the write-kind x PDO-state matrix is enumerated; non-trivial = sequence with "
+        "and probed behaviourally (trigger / received frame; a SYNC right after the activation of a synchronous RPDO that had a frame waiting "
+        "under its earlier settings changes nothing); frames for RPDOs arrive between the writes; the write-kind x PDO-state matrix is enumerated; non-trivial = sequence with "
         ">= 1 refused and >= 1 accepted write; distinct by script")
 ASSUMPTIONS = ["abort code of 'PDO currently valid / count not zero' refusals is not constrained", "re-writing an identical valid COB-ID may be refused",
                "an entry naming fewer bits than the object has may be refused or accepted (then it must take effect as stored); dummy entries are not written through SDO",
@@ -76,6 +77,7 @@ class World:
         cfg.finalize()
         self.cfg = cfg
         self.mode = PREOP
+        self.pending = {}        # RPDO number -> frame received by an active synchronous RPDO, waiting for its SYNC
 
     def entry_verdict(self, p, v):
         idx, sub, bits = v >> 16, (v >> 8) & 0xFF, v & 0xFF
@@ -194,6 +196,33 @@ def stored(p, sub, kind):
     return {"cob": p.cob, "type": p.typ, "inhibit": p.inhibit, "event": p.event}.get(kind, p.ent[sub - 1] if kind == "entry" else p.count)
 
 
+def model_apply(w, p, data):
+    pos = 0
+    for i in range(p.count):
+        e = p.ent[i]
+        n = (e & 0xFF) // 8
+        w.objs[(e >> 16, (e >> 8) & 0xFF)][2] = int.from_bytes(data[pos:pos + n], "little")
+        pos += n
+
+
+def sync(w, sim):
+    """A received SYNC: every active synchronous RPDO holding a frame applies it (exactly once)."""
+    evs = sim.rx(0x80, b"")
+    if w.mode == OP:
+        for q in w.pdos:
+            if not q.tx and q.num in w.pending and q.valid() and q.typ <= 240 and not q.degenerate():
+                model_apply(w, q, w.pending.pop(q.num))
+    return evs
+
+
+def objects_equal(w, sim, fail, key, what):
+    for k, ob in w.objs.items():
+        r2 = sim.ret("rd %x %x %d" % (k[0], k[1], ob[0]))
+        if int(r2[1], 16) != ob[2]:
+            return fail(key, "%s: object %04x:%d = %s, reference %x" % (what, k[0], k[1], r2[1], ob[2]))
+    return True
+
+
 def check_activation(w, sim, p, fail):
     """The live table must reflect the stored configuration; then probe behaviour."""
     if p.degenerate():
@@ -203,14 +232,14 @@ def check_activation(w, sim, p, fail):
         if p.tx:
             evs = sim.cmd("trigpdo %d" % p.num) + sim.cmd("tick 130")
             for k in range(3):
-                evs = evs + sim.rx(0x80, b"")
+                evs = evs + sync(w, sim)
             got = [(c, d) for (t, c, dlc, d, f) in S.txs(evs) if c == cid]
             if got:
                 return fail("activation/incomplete-mapping/tpdo", "TPDO%d (count %d covers an empty entry, COB-ID %x, mode %d) transmitted %r" % (
                     p.num, p.count, p.cob, w.mode, [("%x" % c, d.hex()) for c, d in got[:3]]))
         else:
             sim.rx(cid, gen.rand_bytes(w.rng, 8))
-            sim.rx(0x80, b"")
+            sync(w, sim)
             for k, ob in w.objs.items():
                 r2 = sim.ret("rd %x %x %d" % (k[0], k[1], ob[0]))
                 if int(r2[1], 16) != ob[2]:
@@ -249,17 +278,25 @@ def check_activation(w, sim, p, fail):
         if got:
             return fail("behaviour/sync-tpdo-without-sync", "TPDO%d (type %d, %s) sent %d frame(s) within 120 ticks although no SYNC was received" % (
                 p.num, p.typ, "active" if active else "inactive", len(got)))
-        data = b""
-        for i in range(p.count):
-            e = p.ent[i]
-            ob = w.objs[(e >> 16, (e >> 8) & 0xFF)]
-            data += (ob[2] & ((1 << (e & 0xFF)) - 1)).to_bytes((e & 0xFF) // 8, "little")
+        def current():
+            data = b""
+            for i in range(p.count):
+                e = p.ent[i]
+                ob = w.objs[(e >> 16, (e >> 8) & 0xFF)]
+                data += (ob[2] & ((1 << (e & 0xFF)) - 1)).to_bytes((e & 0xFF) // 8, "little")
+            return data
         seen = []
+        data = current()
         for k in range(p.typ):
-            evs = sim.rx(0x80, b"")
+            before = current()       # a SYNC samples the TPDOs before it applies the frames waiting in synchronous RPDOs
+            evs = sync(w, sim)
             seen.append([(c, d) for (t, c, dlc, d, f) in S.txs(evs) if c == cid])
+            if seen[-1]:
+                data = before
         evs = sim.cmd("tick 12")      # a transmission deferred by a running inhibit time
         seen.append([(c, d) for (t, c, dlc, d, f) in S.txs(evs) if c == cid])
+        if seen[-1]:
+            data = current()
         want = [[] for _ in range(p.typ - 1)] + [[(cid, data)] if active else []]
         # the SYNC counter of this TPDO starts at its activation; other PDOs' probes may have consumed SYNCs: accept any rotation with one frame
         flat = [x for sl in seen for x in sl]
@@ -273,7 +310,7 @@ def check_activation(w, sim, p, fail):
             # an event-driven TPDO is not driven by SYNC, whatever its type was earlier
             got = []
             for k in range(3):
-                evs = sim.rx(0x80, b"")
+                evs = sync(w, sim)
                 got += [(c, d) for (t, c, dlc, d, f) in S.txs(evs) if c == (p.cob & 0x7FF)]
             if got:
                 return fail("behaviour/event-tpdo-on-sync", "TPDO%d (stored type %d, %s) sent %d frame(s) on 3 received SYNCs" % (
@@ -295,23 +332,23 @@ def check_activation(w, sim, p, fail):
             return fail("behaviour/tpdo", "trigger of TPDO%d (%s): transmitted %r, reference %r" % (
                 p.num, "active" if active else "inactive", [("%x" % c, d.hex()) for c, d in got], [("%x" % c, d.hex()) for c, d in want]))
     else:
-        data = gen.rand_bytes(w.rng, 8)
-        before = {k: v[2] for k, v in w.objs.items()}
-        evs = sim.rx(p.cob & 0x7FF, data)
         if p.typ <= 240:
-            sim.rx(0x80, b"")          # synchronous RPDO: takes effect with the next SYNC
+            # a SYNC that follows no reception (since this activation) changes nothing - whatever the RPDO had received under its earlier settings
+            sync(w, sim)
+            if objects_equal(w, sim, fail, "behaviour/rpdo-sync-without-reception", "SYNC without a reception for RPDO%d (%s)" % (
+                    p.num, "active" if active else "inactive")) is not True:
+                return False
+        data = gen.rand_bytes(w.rng, 8)
+        evs = sim.rx(p.cob & 0x7FF, data)
         if active:
-            pos = 0
-            for i in range(p.count):
-                e = p.ent[i]
-                n = (e & 0xFF) // 8
-                w.objs[(e >> 16, (e >> 8) & 0xFF)][2] = int.from_bytes(data[pos:pos + n], "little")
-                pos += n
-        for k, ob in w.objs.items():
-            r2 = sim.ret("rd %x %x %d" % (k[0], k[1], ob[0]))
-            if int(r2[1], 16) != ob[2]:
-                return fail("behaviour/rpdo", "frame for RPDO%d (%s): object %04x:%d = %s, reference %x" % (
-                    p.num, "active" if active else "inactive", k[0], k[1], r2[1], ob[2]))
+            if p.typ <= 240:
+                w.pending[p.num] = data
+            else:
+                model_apply(w, p, data)
+        if p.typ <= 240:
+            sync(w, sim)               # synchronous RPDO: takes effect with the next SYNC
+        if objects_equal(w, sim, fail, "behaviour/rpdo", "frame for RPDO%d (%s)" % (p.num, "active" if active else "inactive")) is not True:
+            return False
     return True
 
 
@@ -336,6 +373,7 @@ def run_sequence(res, exe, rng, first, npdo, forced=None):
                 cs = 1 if w.mode == PREOP else 128
                 script.append("nmt %d" % cs)
                 sim.rx(0, bytes([cs, nid]))
+                w.pending.clear()
                 w.mode = OP if cs == 1 else PREOP
                 if w.mode == OP:
                     for p in w.pdos:
@@ -378,13 +416,44 @@ def run_sequence(res, exe, rng, first, npdo, forced=None):
                          (p.mapi(), 0, 1, 1, "count"), (p.comm(), 1, 4, p.cob & ~0x80000000, "cob"), ("nmt", 1), ("nmt", rng.choice([128, 128, 2])),
                          ("nmt", 128), (p.comm(), 1, 4, p.cob | 0x80000000, "cob"), (p.comm(), 2, 1, t2, "type")]
                 burst += [(p.comm(), 1, 4, p.cob & ~0x80000000, "cob"), ("nmt", 1)] if rng.random() < 0.5 else [("nmt", 1), (p.comm(), 1, 4, p.cob & ~0x80000000, "cob")]
+            elif x < 0.17 and not p.tx:
+                # a synchronous RPDO holds a received frame (no SYNC yet) while it is invalidated / re-mapped / re-validated or the node leaves
+                # and re-enters OPERATIONAL: the configuration that is activated then starts without that frame
+                good = [v_ for v_ in (gen.maplink(0x2300, ss, 8 * w.objs[(0x2300, ss)][0]) for ss in (0, 1, 2, 3, 4, 5, 8)) if w.entry_verdict(p, v_) is None]
+                if len(good) >= 2:
+                    g1, g2 = rng.sample(good, 2)
+                    off, on = (p.comm(), 1, 4, p.cob | 0x80000000, "cob"), (p.comm(), 1, 4, p.cob & ~0x80000000, "cob")
+                    burst = [off, (p.comm(), 2, 1, rng.choice([0, 1, 240]), "type"), (p.mapi(), 0, 1, 0, "count"), (p.mapi(), 1, 4, g1, "entry"), (p.mapi(), 0, 1, 1, "count"), on]
+                    if w.mode != OP:
+                        burst.append(("nmt", 1))
+                    burst.append(("frame", p.num))
+                    burst += rng.choice([[off, (p.mapi(), 0, 1, 0, "count"), (p.mapi(), 1, 4, g2, "entry"), (p.mapi(), 0, 1, 1, "count"), on],
+                                         [("nmt", 128), ("nmt", 1)], [off, on],
+                                         [("nmt", 128), off, (p.mapi(), 0, 1, 0, "count"), (p.mapi(), 1, 4, g2, "entry"), (p.mapi(), 0, 1, 1, "count"), on, ("nmt", 1)]])
+            if not burst and rng.random() < 0.1 and w.mode == OP:
+                burst = [("frame", q_.num) for q_ in w.pdos if not q_.tx][:1 + rng.randrange(2)]
             if not burst:
                 burst = [gen_write(rng, w, p)]
             for (idx, sub, width, value, kind) in [b if len(b) == 5 else (b[0], b[1], 0, 0, b[0]) for b in burst]:
               if kind == "tick":
                 sim.cmd("tick %d" % sub)
                 continue
+              if kind == "frame":
+                q = [q_ for q_ in w.pdos if not q_.tx and q_.num == sub][0]
+                data = gen.rand_bytes(rng, 8)
+                script.append("rx RPDO%d %s" % (q.num, data.hex()))
+                sim.rx(q.cob & 0x7FF, data)
+                if w.mode == OP and q.valid() and not q.degenerate():
+                    if q.typ <= 240:
+                        w.pending[q.num] = data
+                        res.counters["frames_waiting"] += 1
+                    else:
+                        model_apply(w, q, data)
+                        if objects_equal(w, sim, fail, "behaviour/rpdo", "frame for the active asynchronous RPDO%d" % q.num) is not True:
+                            return
+                continue
               if kind == "nmt":
+                w.pending.clear()
                 script.append("nmt %d" % sub)
                 sim.rx(0, bytes([sub, nid]))
                 was = w.mode
@@ -416,6 +485,10 @@ def run_sequence(res, exe, rng, first, npdo, forced=None):
                 if code is None:
                     store(p, sub, value, kind)
                     nacc += 1
+                    if kind == "cob" and not p.tx:
+                        if p.num in w.pending:
+                            res.counters["reactivated_holding_frame"] += 1
+                        w.pending.pop(p.num, None)
                 else:
                     nref += 1
                 # read back
@@ -469,6 +542,8 @@ def finish(total, tier):
     p = []
     if len(total.states) < 80:
         p.append("write-kind x PDO-state matrix: only %d cells" % len(total.states))
+    if total.counters["reactivated_holding_frame"] < 200:
+        p.append("only %d re-activations of a synchronous RPDO that held a received frame" % total.counters["reactivated_holding_frame"])
     return p
 
 
